@@ -57,6 +57,13 @@ type only struct {
 	Eff  int    `json:"eff"`
 }
 
+// boxRec: the spec's answer to the box query [lo, hi] (closed): the stored points inside.
+type boxRec struct {
+	Lo  []int64   `json:"lo"`
+	Hi  []int64   `json:"hi"`
+	Pts [][]int64 `json:"pts"`
+}
+
 type histCase struct {
 	K       string       `json:"k"`
 	Dim     int          `json:"dim"`
@@ -68,6 +75,7 @@ type histCase struct {
 	Ks      []int64      `json:"ks"`
 	Rs      []int64      `json:"rs"`
 	Rsq     []bool       `json:"rsq"` // spec: rs[i] is a perfect square
+	Boxes   []boxRec     `json:"boxes"`
 	Qs      []queryRec   `json:"qs"`
 	Only    *only        `json:"only,omitempty"`
 }
@@ -443,6 +451,55 @@ func (ck *checker) runKd(kk *kdKind, rng *rand.Rand) {
 		}
 		if wantB && withBox != nv {
 			ck.fail("Do", "missing-node-box", fmt.Sprintf("bounded tree: %d of %d visited nodes carry a bounding box", withBox, nv))
+		}
+	}
+	// DoBounded: "performs fn on all values stored in the tree that are within the specified
+	// bound" (the closed box of Bounding.Contains); a nil bound is a Do; the result says
+	// whether fn interrupted the traversal.
+	for bi := range c.Boxes {
+		bx := &c.Boxes[bi]
+		want := map[string]int{}
+		for _, p := range bx.Pts {
+			want[key(fl(p))]++
+		}
+		got := map[string]int{}
+		ng := 0
+		var stopped bool
+		bound := &kdtree.Bounding{Min: kk.point(fl(bx.Lo), -2), Max: kk.point(fl(bx.Hi), -3)}
+		if ck.call("DoBounded", func() {
+			stopped = t.DoBounded(bound, func(p kdtree.Comparable, _ *kdtree.Bounding, _ int) bool {
+				got[key(kk.coords(p))]++
+				ng++
+				return false
+			})
+		}) {
+			if ng != len(bx.Pts) || !sameCount(got, want) {
+				ck.fail("DoBounded", "multiset", fmt.Sprintf("box [%v %v]: DoBounded visited %v, the stored points inside the closed box are %v", bx.Lo, bx.Hi, got, bx.Pts))
+			}
+			if stopped {
+				ck.fail("DoBounded", "interrupted", fmt.Sprintf("box [%v %v]: DoBounded returned true although fn never returned true", bx.Lo, bx.Hi))
+			}
+		}
+		// interruption: fn stops at the first point
+		first := 0
+		if ck.call("DoBounded", func() {
+			stopped = t.DoBounded(bound, func(kdtree.Comparable, *kdtree.Bounding, int) bool { first++; return true })
+		}) {
+			if len(bx.Pts) > 0 && ng > 0 && (!stopped || first != 1) {
+				ck.fail("DoBounded", "interrupt", fmt.Sprintf("box [%v %v]: fn returning true was called %d times, DoBounded returned %v", bx.Lo, bx.Hi, first, stopped))
+			}
+			if ng == 0 && (stopped || first != 0) {
+				ck.fail("DoBounded", "interrupt", fmt.Sprintf("box [%v %v]: no point visited before, now fn called %d times, DoBounded returned %v", bx.Lo, bx.Hi, first, stopped))
+			}
+		}
+		ck.sum.Count("box_queries", 1)
+	}
+	if len(c.Boxes) > 0 {
+		nn := 0
+		if ck.call("DoBounded", func() {
+			t.DoBounded(nil, func(kdtree.Comparable, *kdtree.Bounding, int) bool { nn++; return false })
+		}) && nn != c.N {
+			ck.fail("DoBounded", "nil-bound", fmt.Sprintf("DoBounded(nil) visited %d of %d stored points (documented: same as Do)", nn, c.N))
 		}
 	}
 	for qi := range c.Qs {
